@@ -62,6 +62,35 @@ theorem F4_NoReentry_false : ¬ C03.NoReentry 15 24 s2 := by
   intro h
   exact h 22 (s2.getLast (by decide)) (by decide) (by decide) (by decide) (by decide) (by decide)
 
+/-- `MOVQ 0x1000(RIP),AX; MOVQ 0x2000(RIP),BX; RET` — 15 bytes, every cut position ≥ 13 is followed by RET: copied whole -/
+def whole : List Ins := [
+  { len := 7, pcrelOff := 3, pcrel := 4, bytes := b [0x48, 0x8b, 0x05, 0x00, 0x10, 0x00, 0x00], isRet := false, isCall := false, backward := false, opZero := false },
+  { len := 7, pcrelOff := 3, pcrel := 4, bytes := b [0x48, 0x8b, 0x1d, 0x00, 0x20, 0x00, 0x00], isRet := false, isCall := false, backward := false, opZero := false },
+  { len := 1, pcrelOff := 0, pcrel := 0, bytes := b [0xc3], isRet := true, isCall := false, backward := false, opZero := false }]
+
+/-- **F27** (known finding): the whole function is consumed (n = 15 = its size), the relocation computes the right bytes
+    (`fixed`, displacements moved by −0x400) — and `fixOriginFuncToTrampoline` writes the RAW original bytes instead. -/
+theorem F27_whole_copy_is_raw :
+    ∃ fixed data, fixRelativeAddr Cfg.fixed 0x500000#64 0x500400#64 15 ((13 : Nat) : Int) .eof whole = .ok (fixed, 15) ∧
+      fixOrigin Cfg.fixed 0x500000#64 0x500400#64 200 13 whole = .ok data ∧ data = fixed ∧ fixed ≠ progBytes whole := by
+  refine ⟨_, _, rfl, rfl, rfl, by decide⟩
+
+/-- `ADDB AL,(AX)` (00 00), then `PUSHQ BP; MOVQ SP,BP; SUBQ $0x18,SP; 8×NOP; RET` -/
+def withZero : List Ins :=
+  { len := 2, pcrelOff := 0, pcrel := 0, bytes := b [0, 0], isRet := false, isCall := false, backward := false, opZero := true } ::
+  { len := 1, pcrelOff := 0, pcrel := 0, bytes := b [0x55], isRet := false, isCall := false, backward := false, opZero := false } ::
+  { len := 3, pcrelOff := 0, pcrel := 0, bytes := b [0x48, 0x89, 0xe5], isRet := false, isCall := false, backward := false, opZero := false } ::
+  { len := 4, pcrelOff := 0, pcrel := 0, bytes := b [0x48, 0x83, 0xec, 0x18], isRet := false, isCall := false, backward := false, opZero := false } ::
+  ((List.replicate 8 { len := 1, pcrelOff := 0, pcrel := 0, bytes := b [0x90], isRet := false, isCall := false, backward := false, opZero := false }) ++
+  [{ len := 1, pcrelOff := 0, pcrel := 0, bytes := b [0xc3], isRet := true, isCall := false, backward := false, opZero := false },
+   { len := 1, pcrelOff := 0, pcrel := 0, bytes := b [0xcc], isRet := false, isCall := false, backward := false, opZero := false }])
+
+/-- **F28** (known finding): an instruction whose Opcode field is 0 is skipped — 13 bytes of the origin are consumed but only
+    11 arrive in the copy; the contract `C03L.WF.opnz` excludes exactly this. -/
+theorem F28_opzero_dropped :
+    ∃ out, fixRelativeAddr Cfg.fixed 0x500000#64 0x600000#64 20 13 .eof withZero = .ok (out, 13) ∧ out.length = 11 := by
+  refine ⟨_, rfl, by decide⟩
+
 /-- **F5** (known finding): more than 2 GiB apart the jump-back is `MOV RDX, imm64; JMP [RDX]` — it jumps *through* the
     8 bytes stored at the destination instead of *to* it (monkey_amd64.go:45–:56; fine for the entry jump, whose
     destination is a function value, wrong for returning into code). -/
